@@ -233,3 +233,33 @@ Fixpoint observe_segments (SN AD DN : list Z) (s : cache) (segs : list (list op)
   | [] => []
   | h :: r => let s' := run s h in pack (dump SN AD DN s') ++ observe_segments SN AD DN s' r
   end.
+
+(* ---- the two places where a node learns from what it observes, seen from the cache.
+   NetworkServiceElement.IAmRouterToNetwork (netservice.py, handler of an I-Am-Router-To-Network):
+   the announcement is recorded FIRST (sap.update_router_references), then relayed to the node's other
+   adapters; relaying may leave the handler with the link layer's exception (relay_ok = for each other
+   adapter, whether its downstream accepts the frame).  The recorded knowledge does not depend on
+   relay_ok; the second component says whether the handler was left by an exception. *)
+Definition on_iam (relay_ok : list bool) (s : cache) (sn a : Z) (ds : list Z) : res cache * bool :=
+  (update_router_info s sn a ds 0, negb (forallb (fun b => b) relay_ok)).
+
+(* frames of an NPDU-driven history: an announcement with the state of the other adapters' links, or
+   any other frame / API call given by the cache operations it stands for *)
+Inductive frame :=
+| FIAm (relay_ok : list bool) (sn a : Z) (ds : list Z)
+| FOps (h : list op).
+
+Definition frame_step (s : cache) (f : frame) : cache * list Z :=
+  match f with
+  | FIAm up sn a ds =>
+      let r := on_iam up s sn a ds in
+      (match fst r with Ok s' => s' | Err _ => s end, [zb (snd r)])
+  | FOps h => (run s h, [])
+  end.
+
+Fixpoint observe_frames (SN AD DN : list Z) (s : cache) (fs : list frame) : list Z :=
+  match fs with
+  | [] => []
+  | f :: r => let (s', flag) := frame_step s f in
+              flag ++ pack (dump SN AD DN s') ++ observe_frames SN AD DN s' r
+  end.
